@@ -15,7 +15,8 @@ EXPLANATION = (
     "string, digit parsing by the digit alphabet, the 64-square assertion and array conversions by the per-rank "
     "width check, arithmetic by interval arguments; (WIDTH) the rank parser returns Ok only past a comparison of the "
     "rank's length with 8 whose unequal edge returns Err; (TABLES) piece, colour, castling, file and rank letters of "
-    "reader and writer are inverse bijections."
+    "reader and writer are inverse bijections; (FIELDS) the en-passant, halfmove and move-number fields are written from "
+    "their own Game field unconditionally and the move-number formulas of writer and reader are inverse (evaluated)."
 )
 
 
@@ -26,6 +27,119 @@ def run(fx, rep, tier):
     pC04.run_cone(fx, rep, "C06-CONE", [parse.name], set(), 30, extra_classes=extra,
                   floors={"one_of-match-exhaustive": 4, "digit-parse": 1, "assert-64-by-width": 1, "array-64-by-width": 2})
     rule_tables(fx, rep)
+    rule_fields(fx, rep)
+
+
+# ---- C06-FIELDS ----------------------------------------------------------------------------
+
+
+def num_eval2(e, env):
+    """numeric evaluation of a u32 formula over named variables (env maps ('arg', i) -> value; 'eqflag' -> 0/1)"""
+    e = deep_strip(e)
+    if not isinstance(e, tuple) or not e:
+        return None
+    if e[0] == "const" and isinstance(e[1], int):
+        return e[1]
+    if e[0] == "arg":
+        return env.get(("arg", e[1]))
+    if e[0] == "field" and e[2] == "0" and isinstance(e[1], tuple) and e[1][0] == "binop":
+        return num_eval2(e[1], env)
+    if e[0] == "field" and isinstance(e[1], tuple) and e[1][0] == "arg":
+        return env.get(("field", e[2]))
+    if e[0] == "binop":
+        a, b = num_eval2(e[2], env), num_eval2(e[3], env)
+        if a is None or b is None:
+            return None
+        op = e[1].replace("WithOverflow", "")
+        return {"Add": a + b, "Sub": a - b, "Mul": a * b, "Div": a // b if b else None}.get(op)
+    if e[0] == "call":
+        nm = e[1]
+        if cmp_op(e) is not None:
+            return env.get("eqflag")
+        args = [num_eval2(a, env) for a in e[2]]
+        if any(a is None for a in args):
+            return None
+        if nm.endswith("saturating_sub"):
+            return max(0, args[0] - args[1])
+        if nm.endswith("Ord::min") or nm.endswith("cmp::min"):
+            return min(args)
+        if nm.endswith("from") and len(args) == 1:
+            return args[0]
+    if e[0] == "cast":
+        return num_eval2(e[1], env)
+    return None
+
+
+def rule_fields(fx, rep):
+    """Each scalar FEN field is written from its own Game field unconditionally, and the move-number formulas of
+    writer and reader are inverse (evaluated numerically)."""
+    ok = True
+    n = 0
+
+    def bad(key, msg, b):
+        nonlocal ok
+        ok = False
+        rep.violation("C06-FIELDS", f"C06-FIELDS/{key}", msg, {"fn": b.name, "file": b.file, "line": b.line})
+
+    ep = fx.one("fen_writer::format_en_passant_target")
+    paths = [p for p in decision_paths(ep) if p[1] is not None]
+    n += 1
+    good = True
+    why = ""
+    some_paths = 0
+    for conds, ret, bb in paths:
+        on_field = [c for c in conds if isinstance(deep_strip(c[0]), tuple) and deep_strip(c[0])[0] == "discr" and
+                    isinstance(deep_strip(c[0])[1], tuple) and deep_strip(c[0])[1][0] == "field" and deep_strip(c[0])[1][2] == "en_passant_target"]
+        extra = [c for c in conds if c not in on_field]
+        if extra:
+            good, why = False, f"the en-passant field also depends on `{show(extra[0][0])[:80]}`: a recorded target is not always written, so reading the text back loses it (and changes the key)"
+        is_some = any(v == 1 for (_, v) in on_field)
+        r = deep_strip(ret)
+        if is_some:
+            some_paths += 1
+            nt = find_calls(r, "Square::notation")
+            if not nt or not any(isinstance(x, tuple) and len(x) == 3 and x[0] == "field" and x[2] == "en_passant_target" for x in walk(nt[0][2][0])):
+                good, why = False, f"with a target recorded the writer prints `{show(r)[:80]}`, not the target square's notation"
+        else:
+            lit = [x[1] for x in walk(r) if isinstance(x, tuple) and x and x[0] == "const" and isinstance(x[1], str)]
+            if lit != ["-"]:
+                good, why = False, f"without a target the writer prints {lit}, not '-'"
+    good = good and some_paths >= 1
+    rep.obligation(good)
+    if not good:
+        bad("en-passant", why or "the en-passant field is not written from game.en_passant_target alone", ep)
+    hm = fx.one("fen_writer::format_halfmove_clock")
+    n += 1
+    hp = [p for p in decision_paths(hm) if p[1] is not None]
+    good = len(hp) == 1 and not hp[0][0] and bool(find_calls(hp[0][1], "to_string")) and \
+        any(isinstance(x, tuple) and len(x) == 3 and x[0] == "field" and x[2] == "halfmove_clock" for x in walk(hp[0][1]))
+    rep.obligation(good)
+    if not good:
+        bad("halfmove", "the halfmove field is not `game.halfmove_clock.to_string()`", hm)
+    fm = fx.one("fen_writer::format_fullmove_number")
+    turn = fx.one("Game::turn")
+    rd = fx.one("fen_parser::plies_from_fullmove_number")
+    n += 1
+    fp = [p for p in decision_paths(fm) if p[1] is not None]
+    tp = [p for p in decision_paths(turn) if p[1] is not None]
+    rp = [p for p in decision_paths(rd) if p[1] is not None]
+    good = len(fp) == 1 and bool(find_calls(fp[0][1], "Game::turn")) and len(tp) == 1 and len(rp) == 1
+    if good:
+        for nmove in list(range(1, 300)) + [5000, 100000]:
+            for black in (0, 1):
+                plies = num_eval2(rp[0][1], {("arg", 1): nmove, "eqflag": black})
+                back = num_eval2(tp[0][1], {("field", "plies"): plies}) if plies is not None else None
+                if back != nmove:
+                    good = False
+                    why = f"move number {nmove} ({'black' if black else 'white'} to move) is read as {plies} plies and written back as {back}"
+                    break
+            if not good:
+                break
+    rep.obligation(good)
+    rep.sample({"rule": "C06-FIELDS", "writer_turn": show(tp[0][1]) if tp else None, "reader_plies": show(rp[0][1])[:120] if rp else None})
+    if not good:
+        bad("fullmove", f"writer and reader move-number formulas are not inverse: {why}", fm)
+    rep.rule("C06-FIELDS", n, 3, ok, "scalar FEN fields written from their own Game field; move-number formulas inverse")
 
 
 # ---- C06-WIDTH -----------------------------------------------------------------------------
@@ -408,6 +522,10 @@ MUTANTS = [
      "edits": [(W, "            if black_king { \"k\" } else { \"\" },\n            if black_queen { \"q\" } else { \"\" }", "            if black_king { \"q\" } else { \"\" },\n            if black_queen { \"k\" } else { \"\" }")]},
     {"name": "reader takes b as white to move", "expect": "C06-TABLES/colour",
      "edits": [(P, "        value(Player::White, tag(\"w\")),\n        value(Player::Black, tag(\"b\")),", "        value(Player::Black, tag(\"w\")),\n        value(Player::White, tag(\"b\")),")]},
+    {"name": "writer drops the en-passant square when no capture is possible (seed C06-1)", "expect": "C06-FIELDS/en-passant",
+     "edits": [(W, "        Some(sq) => sq.notation(),\n        None => \"-\".to_string(),", "        Some(sq) if game.moves().iter().any(|m| m.is_en_passant()) => sq.notation(),\n        _ => \"-\".to_string(),")]},
+    {"name": "writer prints the move number from plies / 2", "expect": "C06-FIELDS/fullmove",
+     "edits": [("src/chess/game.rs", "        self.plies / 2 + 1", "        (self.plies + 1) / 2 + 1")]},
     {"name": "benign: width check written with equality first", "benign": True,
      "edits": [(P, "    if squares.len() != File::N {\n        return Err(nom::Err::Error(nom::error::Error::new(\n            input,\n            nom::error::ErrorKind::Verify,\n        )));\n    }\n\n    Ok((input, FenRank(squares)))",
                 "    if squares.len() == File::N {\n        return Ok((input, FenRank(squares)));\n    }\n\n    Err(nom::Err::Error(nom::error::Error::new(\n        input,\n        nom::error::ErrorKind::Verify,\n    )))")]},
